@@ -46,7 +46,30 @@ func (c *Ctx) run(rule string) []Obligation {
 	if r == nil {
 		broken("unknown rule %s", rule)
 	}
-	o := r.Fn(c)
+	// a rule that cannot do its work — an anchor it needs is gone, or the rule itself fails on code of
+	// a shape it was not prepared for — must not take the other rules down and must not pass: it
+	// yields one undecided obligation (reported like a violation) saying why
+	o := func() (out []Obligation) {
+		defer func() {
+			if e := recover(); e != nil {
+				msg := fmt.Sprint(e)
+				if be, ok := e.(brokenErr); ok {
+					msg = be.msg
+				} else {
+					stack := strings.Split(string(debug.Stack()), "\n")
+					for _, l := range stack {
+						if strings.Contains(l, "/jenlint/") && !strings.Contains(l, "main.go") {
+							msg += " at " + strings.TrimSpace(l)
+							break
+						}
+					}
+				}
+				out = []Obligation{{Rule: rule, Key: rule + " | <rule> | the rule could be applied to this tree", Status: Undecided, Nontrivial: true,
+					Detail: "the rule could not be applied: " + msg}}
+			}
+		}()
+		return r.Fn(c)
+	}()
 	sort.SliceStable(o, func(i, j int) bool { return o[i].Key < o[j].Key })
 	// one obligation per key: keep the worst verdict
 	rank := map[Status]int{Info: 0, Discharged: 1, Undecided: 2, Violated: 3}
